@@ -58,9 +58,14 @@ type Ref struct {
 	Inline []Ref `json:"inline"` // non-nil for an inline set
 }
 
-func RItem(i int) Ref      { return Ref{Item: i, Set: -1} }
-func RSet(i int) Ref       { return Ref{Item: -1, Set: i} }
-func RInline(rs []Ref) Ref { if rs == nil { rs = []Ref{} }; return Ref{Item: -1, Set: -1, Inline: rs} }
+func RItem(i int) Ref { return Ref{Item: i, Set: -1} }
+func RSet(i int) Ref  { return Ref{Item: -1, Set: i} }
+func RInline(rs []Ref) Ref {
+	if rs == nil {
+		rs = []Ref{}
+	}
+	return Ref{Item: -1, Set: -1, Inline: rs}
+}
 
 // IsInline reports whether r is an inline set.
 func (r Ref) IsInline() bool { return r.Item < 0 && r.Set < 0 }
@@ -93,6 +98,9 @@ type Injector struct {
 	// RawResults overrides the result list (signature-rule property).
 	RawResults []*Type `json:"raw,omitempty"`
 	Doc        string  `json:"doc,omitempty"`
+	// ResNames names the results of the template (all of them, "_" allowed);
+	// ignored unless its length equals the number of results.
+	ResNames []string `json:"resnames,omitempty"`
 }
 
 // Run is one injector call of the generated driver.
@@ -120,6 +128,10 @@ type Spec struct {
 	// SetsInInject writes the root package's set variables into the injector
 	// files (so that Wire copies them into wire_gen.go) instead of sets.go.
 	SetsInInject bool `json:"setsininject,omitempty"`
+	// WireImport selects how the files import Wire's marker package: ""
+	// (plain), "raw" (import path written as a raw string literal) or
+	// "alias" (renamed import).
+	WireImport string `json:"wireimport,omitempty"`
 	// ExtRoot, when set, gives the non-root packages import paths below it
 	// (external dependencies) instead of below the program's own path.
 	ExtRoot string `json:"extroot,omitempty"`
